@@ -286,6 +286,15 @@ def run_phase(ctx, ph):
         cases_path = os.path.join(work, f"cases_{name}.ndjson")
         write_cases(cases, cases_path)
         ctx.nt = {c["id"]: c.get("nt", True) for c in cases}
+    elif "static_cases" in ph:
+        # workloads not derived from TLC cases (record direction): the plan lists the work items
+        cases = ph["static_cases"](tier, seed)
+        for i, c in enumerate(cases, 1):
+            c["id"] = i
+        cases_path = os.path.join(work, f"cases_{name}.ndjson")
+        write_cases(cases, cases_path)
+        ctx.nt = {c["id"]: True for c in cases}
+        ctx.ev["exhaustive"] = False
     else:
         ctx.nt = {}
     # ---- B: drive
